@@ -77,8 +77,92 @@ func TestVerifC19(t *testing.T) {
 	defer verifSetLogging(false)
 	c19Eligibility(R, rng)
 	c19Timing(R, rng)
+	c19Deaf(R, rng)
 	c19Wiring(R, rng)
 	c19Hanging(R, rng)
+}
+
+// c19Deaf: the hooks directory is unusable exactly when a coalesced (trailing) round is due; after it has been
+// repaired every later change must run the hooks again.
+func c19Deaf(R *vr.Result, rng *rand.Rand) {
+	for _, how := range []string{"world-writable", "missing", "not-a-directory"} {
+		id := "deaf/" + how
+		if !R.Want(id) {
+			continue
+		}
+		R.Mark(id)
+		root := ovlWork("c19-deaf")
+		dir := filepath.Join(root, "hooks")
+		os.Mkdir(dir, 0755) //nolint:errcheck
+		log := filepath.Join(root, "log")
+		hook := c19Script(dir, "h", log, 0755, "")
+		L := 250 * time.Millisecond
+		verifSetLogging(true)
+		h := c19Caller(dir, "/store", L)
+		h.Notify <- true
+		h.Notify <- true
+		h.Notify <- true
+		// break the directory before the timer fires
+		time.Sleep(L / 4)
+		switch how {
+		case "world-writable":
+			os.Chmod(dir, 0777) //nolint:errcheck
+		case "missing":
+			os.Rename(dir, dir+".away") //nolint:errcheck
+		case "not-a-directory":
+			os.Rename(dir, dir+".away")                 //nolint:errcheck
+			os.WriteFile(dir, []byte("file"), 0644) //nolint:errcheck
+		}
+		if !c19Wait(20*L+3*time.Second, func(ev []verifEvt) bool {
+			for _, e := range ev {
+				if e.Kind == "hooks.timer" {
+					return true
+				}
+			}
+			return false
+		}) {
+			R.Inconcl("timer event not seen in " + id)
+			continue
+		}
+		time.Sleep(20 * time.Millisecond)
+		// repair
+		switch how {
+		case "world-writable":
+			os.Chmod(dir, 0755) //nolint:errcheck
+		default:
+			os.Remove(dir)                  //nolint:errcheck
+			os.Rename(dir+".away", dir) //nolint:errcheck
+		}
+		okAll := true
+		for k := 0; k < 3; k++ {
+			s0 := c19Seq()
+			h.Notify <- true
+			ok := c19Wait(20*L+3*time.Second, func(ev []verifEvt) bool {
+				for _, e := range ev {
+					if e.Kind == "hooks.exec" && e.Seq > s0 && e.Subject == hook {
+						return true
+					}
+				}
+				return false
+			})
+			R.Count("post_repair_changes", 1)
+			if !ok {
+				okAll = false
+				var sig []string
+				for _, e := range verifSnapshot() {
+					if strings.HasPrefix(e.Kind, "hooks.") && e.Kind != "hooks.exec" {
+						sig = append(sig, fmt.Sprintf("%s(%d)", strings.TrimPrefix(e.Kind, "hooks."), e.A))
+					}
+				}
+				R.Violate("c19:no-hook-after-directory-repaired:"+how, fmt.Sprintf("the hooks directory was %s when the coalesced round was due and has been repaired; change #%d afterwards started no hook within %v", how, k+1, 20*L+3*time.Second), id, map[string]any{"hook_goroutine_events": strings.Join(sig, " ")})
+				break
+			}
+			time.Sleep(L + L/2)
+		}
+		R.Case(id, true)
+		_ = okAll
+		verifSetLogging(true)
+	}
 }
 
 // ---------------------------------------------------------------- (A)
